@@ -94,7 +94,7 @@ def check_loop(rep: Report, prog: Program) -> None:
                         rep.fail("R1.1", f"writer|{fi.qual}|{n.attr}", f"{fi.qual} writes `{ast.unparse(n)}`: caps are written only by _BaseRetryPolicy.__init__, counters only by _RetryState", where=fi.where(n), function=fi.qual)
                 if isinstance(n, ast.Subscript) and isinstance(n.ctx, (ast.Store, ast.Del)) and isinstance(n.value, ast.Attribute) and n.value.attr in CAP_ATTRS | COUNTER_ATTRS:
                     rep.instance("R1.1", f"item-writer|{fi.qual}|{n.value.attr}")
-                    if fi.qual == HANDLE_FAILURE and n.value.attr == "per_class_counts":
+                    if owned_by(prog, fi, HANDLE_FAILURE) and n.value.attr == "per_class_counts":
                         rep.ok("R1.1")
                     else:
                         rep.fail("R1.1", f"item-writer|{fi.qual}|{n.value.attr}", f"{fi.qual} writes an item of `{n.value.attr}`", where=fi.where(n), function=fi.qual)
@@ -339,3 +339,8 @@ def run(rep: Report, prog: Program, tier: str) -> None:
 
     failure_entry(rep, "R1.6", prog)
     rep.floor("R1.6", 2)
+    rep.rule("R1.7", "caps assigned after construction through the sugar objects (policy.max_attempts = n, policy.per_class_max_attempts = {...}) reach the retry component that enforces them (= C12 R12.5)")
+    from .c12 import sugar_setattr
+
+    sugar_setattr(rep, "R1.7", prog)
+    rep.floor("R1.7", 8)
